@@ -59,6 +59,8 @@ class C08(Prop):
     tie_modules = {"RxModel.GenTie.Scheduler": [],
                    # interval / interval_at / timer / timer_at: what `actual_subscribe` schedules, the tick and task functions
                    "RxModel.GenTie.TimeSources": [],
+                   # … and those scheduling events ARE the scheduling calls of the world model (TW.subscribeSource, runTick)
+                   "RxModel.GenTie.TimeSourcesModel": [],
                    # transcription pins (DESIGN II.7, weakest tie): the token text of the hand-transcribed files is the one the model was made from
                    "RxModel.GenTie.PinsAsync": [],
     }
